@@ -116,14 +116,14 @@ func genSoupScript(t *rapid.T, label string, pushy bool) []byte {
 func genSoupSpend(t *rapid.T) *spend {
 	sk := genSkeleton(t, 1)
 	idx := rapid.IntRange(0, len(sk.tx.In)-1).Draw(t, "idx")
-	layer := rapid.SampledFrom([]string{"bare", "bare", "p2sh", "p2wsh", "p2sh-p2wsh", "tapscript", "tapscript"}).Draw(t, "layer")
+	layer := rapid.SampledFrom([]string{"bare", "p2sh", "tapscript", "p2wsh", "p2sh", "p2sh-p2wsh", "tapscript", "bare", "p2sh"}).Draw(t, "layer")
 	s := &spend{tx: sk.tx, idx: idx, prevouts: sk.prevouts, gen: "g1-soup:" + layer}
 	in := &sk.tx.In[idx]
 	switch layer {
 	case "bare":
 		in.ScriptSig = genSoupScript(t, "sig", true)
 		sk.prevouts[idx].PkScript = genSoupScript(t, "pk", false)
-		if rapid.IntRange(0, 9).Draw(t, "strayWitness") == 0 {
+		if rapid.IntRange(0, 3).Draw(t, "strayWitness") == 3 {
 			in.Witness = [][]byte{{1}}
 		}
 	case "p2sh":
@@ -156,6 +156,22 @@ func genSoupSpend(t *rapid.T) *spend {
 		sk.prevouts[idx].PkScript = tree.PkScript()
 	}
 	sk.finalizeOutpoints()
+	if len(in.Witness) > 0 && layer != "bare" && rapid.IntRange(0, 4).Draw(t, "witprogTarget") == 4 {
+		// one edit at the witness-program level
+		switch rapid.IntRange(0, 2).Draw(t, "witprogEdit") {
+		case 0:
+			pk := append([]byte{}, sk.prevouts[idx].PkScript...)
+			pk[len(pk)-1] ^= 1
+			sk.prevouts[idx].PkScript = pk
+		case 1:
+			w := cloneItems(in.Witness)
+			w[len(w)-1] = append(w[len(w)-1], 0x61)
+			in.Witness = w
+		default:
+			in.ScriptSig = append([]byte{ms.OP_0}, in.ScriptSig...)
+		}
+		s.gen += "+witprog-edit"
+	}
 	return s
 }
 
